@@ -130,20 +130,43 @@ def tla_gen():
     key = "tlagen-" + file_hash(files)
     gen = os.path.join(COQ, "theories", "Tla", "gen")
 
-    def go():
+    stamp = os.path.join(gen, ".stamp")
+    with Lock("tla-gen"):
+        cur = open(stamp).read().strip() if os.path.exists(stamp) else ""
+        want = ["Spec_dbft.v", "Spec_antiMEV.v", "Spec_CV3.v", "Spec_centralizedCV.v", "Spec_multipool.v", "Witness_CV3.v"]
+        if cur == key and all(os.path.exists(os.path.join(gen, w)) for w in want):
+            return {"ok": True, "log": "", "reused": True}
         p = sh("timeout 900 %s/tla2coq/gen.sh" % VERIF, check=False)
-        return {"ok": p.returncode == 0, "log": p.stdout[-3000:]}
-    r = cached(key, go)
-    want = ["Spec_dbft.v", "Spec_antiMEV.v", "Spec_CV3.v", "Spec_centralizedCV.v", "Spec_multipool.v", "Witness_CV3.v"]
-    if r["ok"] and not all(os.path.exists(os.path.join(gen, w)) for w in want):
-        os.remove(os.path.join(WORK, "cache", key + ".json"))
-        r = cached(key, go)
-    return r
+        ok = p.returncode == 0
+        if ok:
+            with open(stamp, "w") as f:
+                f.write(key)
+        elif os.path.exists(stamp):
+            os.remove(stamp)
+        return {"ok": ok, "log": p.stdout[-3000:], "reused": False}
+
+
+def sim_gen():
+    """regenerate coq/theories/Sim/gen/DriverShape.v from internal/simulation/main.go (rewritten only when its text changes)"""
+    out = os.path.join(COQ, "theories", "Sim", "gen", "DriverShape.v")
+    os.makedirs(os.path.dirname(out), exist_ok=True)
+    p = sh("python3 %s/tools/simshape.py %s/internal/simulation/main.go" % (VERIF, REPO), check=False)
+    if p.returncode != 0:
+        return {"ok": False, "log": p.stdout[-1000:]}
+    with Lock("sim-gen"):
+        cur = open(out).read() if os.path.exists(out) else ""
+        if cur != p.stdout:
+            with open(out, "w") as f:
+                f.write(p.stdout)
+    return {"ok": True, "log": ""}
 
 
 def build_coq():
     """full .vo build of the Coq development (make is incremental); returns ok + log"""
     g = tla_gen()
+    sg = sim_gen()
+    if not sg["ok"]:
+        return {"ok": False, "log": "simshape generation failed:\n" + sg["log"], "wall_s": 0, "gen_failed": True}
     with Lock("coq-build"):
         t = time.time()
         if not g["ok"]:
